@@ -21,7 +21,7 @@ class Leave(BaseException):
 
 
 class Proc(object):
-    __slots__ = ("pid", "age", "state", "status", "die_in", "mode", "hb", "lag", "born", "term_at", "signals", "worker")
+    __slots__ = ("pid", "age", "state", "status", "die_in", "mode", "hb", "lag", "born", "term_at", "signals", "worker", "boot_until")
 
     def __init__(self, pid, age, born):
         self.pid = pid
@@ -36,6 +36,7 @@ class Proc(object):
         self.term_at = None
         self.signals = []          # (time, sig)
         self.worker = None
+        self.boot_until = born     # until the child has installed its own handlers, TERM only reaches the inherited arbiter handler
 
 
 class DummyLog(object):
@@ -244,6 +245,7 @@ class Kernel(object):
         if w is not None and w.timeout:
             # a healthy worker's heartbeat lags by at most the wait bound the arbiter gave it
             p.lag = (self.draw(5) / 4.0) * float(w.timeout)
+        p.boot_until = self.clock + [0.0, 0.0, 0.0, 0.3, 1.5, 2.5][self.draw(6)]
         self.procs[pid] = p
         self.trace.append(("fork", pid, round(self.clock, 2)))
         if self.fast_death is not None:
@@ -271,7 +273,9 @@ class Kernel(object):
             p.status = 9
             p.die_in = 0
         elif sig in (real_signal.SIGTERM,):
-            if p.mode in ("healthy",):
+            if self.clock < p.boot_until:
+                self.trace.append(("term-lost-while-booting", pid, round(self.clock, 2)))
+            elif p.mode in ("healthy",):
                 if p.die_in is None:
                     p.status = 0
                     p.die_in = self.draw(4)
